@@ -203,7 +203,8 @@ func H_C19_ProbeNode() {
 	conf := vBaseConfig()
 	// environment 4: only the TCP fallback gets through (UDP silent); otherwise TCP pings are off
 	// environment 5: the direct ack is late (after ProbeTimeout) and the TCP fallback answers as well
-	env := vPick(6)
+	// environment 6: nothing answers and the TCP fallback's connection attempt hangs (crashed host, no RST)
+	env := vPick(7)
 	conf.DisableTcpPings = env < 4
 	conf.IndirectChecks = vPick(2)
 	conf.ProbeTimeout = 500 * time.Millisecond
@@ -240,6 +241,8 @@ func H_C19_ProbeNode() {
 		tcp = &vConn{in: reply.out, delay: d}
 		f.tr.conn = tcp
 		at = conf.ProbeTimeout + d
+	case 6:
+		f.tr.dialHang = true
 	case 5:
 		reply := &vConn{}
 		abuf, _ := encode(ackRespMsg, &ackResp{SeqNo: seq}, false)
